@@ -343,6 +343,131 @@ theorem moduleKeys_createClient {s : Store} (h : ModuleKeys s) {chain cb sb : By
     exact moduleKeys_setConsensusState (moduleKeys_ethSetRoot h2 root hgt.2 hash hc t2) hgt hc hcs
   | tss => exact h1
 
+/-! ## UpgradeClient -/
+
+/-- deleting every entry whose key fails a test that spares the chain name and all client states keeps ModuleKeys -/
+theorem moduleKeys_filter {s : Store} (h : ModuleKeys s) (g : Bytes → Bool) (hcn : g kChainName = true)
+    (hcs : ∀ c, slash ∉ c → g (clientKey c kClientState) = true) : ModuleKeys (s.filter (fun kv => g kv.1)) := by
+  obtain ⟨hS, hC, hK⟩ := (moduleKeys_iff s).mp h
+  refine (moduleKeys_iff _).mpr ⟨List.Pairwise.filter _ hS, ?_, ?_⟩
+  · rw [get_filter_key]; simp [hcn, hC]
+  · intro kv hkv
+    obtain ⟨hm, _⟩ := List.mem_filter.mp hkv
+    have hok := hK kv hm
+    obtain ⟨k, v⟩ := kv
+    simp only at hok ⊢
+    cases hsp : splitClientKey k with
+    | none => simpa only [xKeyOk, hsp] using hok
+    | some cp =>
+      obtain ⟨c, p⟩ := cp
+      obtain ⟨_, hcn', _⟩ := splitClientKey_some hsp
+      have : get (s.filter (fun kv => g kv.1)) (clientKey c kClientState) = get s (clientKey c kClientState) := by
+        rw [get_filter_key]; simp [hcs c hcn']
+      simpa only [xKeyOk, hsp, this] using hok
+
+theorem signersTest_spares (chain : Bytes) (hc : slash ∉ chain) :
+    (!(clientKey chain kRecent).isPrefixOf kChainName) = true ∧
+    ∀ c, slash ∉ c → (!(clientKey chain kRecent).isPrefixOf (clientKey c kClientState)) = true := by
+  have hpre : (clientPrefix chain).isPrefixOf (clientKey chain kRecent) = true := isPrefixOf_append _ _
+  constructor
+  · cases hq : (clientKey chain kRecent).isPrefixOf kChainName with
+    | false => rfl
+    | true =>
+      have h1 : kClientsSlash.isPrefixOf (clientKey chain kRecent) = true := by
+        unfold clientKey clientPrefix; rw [List.append_assoc, List.append_assoc]; exact isPrefixOf_append _ _
+      exact absurd (isPrefixOf_trans h1 hq) (by decide)
+  · intro c hcs
+    cases hq : (clientKey chain kRecent).isPrefixOf (clientKey c kClientState) with
+    | false => rfl
+    | true =>
+      have ec := clientPrefix_prefix_iff hc hcs (isPrefixOf_trans hpre hq)
+      subst ec
+      obtain ⟨r, hr⟩ := (isPrefixOf_iff _ _).mp hq
+      have e2 : clientKey c kClientState = clientKey c (kRecent ++ r) := by
+        rw [hr]; simp [clientKey]
+      have := (clientKey_inj hc hc e2).2
+      have hp : kRecent.isPrefixOf kClientState = true := by rw [this]; exact isPrefixOf_append _ _
+      exact absurd hp (by decide)
+
+theorem moduleKeys_bscClearSigners {s : Store} (h : ModuleKeys s) {chain : Bytes} (hc : slash ∉ chain) :
+    ModuleKeys (bscClearSigners s chain) ∧ ∀ c, slash ∉ c → tyOfChain (bscClearSigners s chain) c = tyOfChain s c := by
+  obtain ⟨h1, h2⟩ := signersTest_spares chain hc
+  refine ⟨moduleKeys_filter h (fun k => !(clientKey chain kRecent).isPrefixOf k) h1 h2, ?_⟩
+  intro c hcs
+  unfold tyOfChain bscClearSigners
+  rw [get_filter_key s (fun k => !(clientKey chain kRecent).isPrefixOf k)]
+  simp [h2 c hcs]
+
+theorem moduleKeys_setClientState_ty {s : Store} (h : ModuleKeys s) {chain blob : Bytes} (hc : slash ∉ chain)
+    (hb : (clientTy blob).isSome = true) (ht : tyOfChain s chain = clientTy blob) :
+    ModuleKeys (setClientState s chain blob) := by
+  refine moduleKeys_setClientState h hc hb ?_
+  intro cv hcv
+  unfold tyOfChain at ht
+  rw [hcv] at ht
+  simpa using ht
+
+/-- `UpgradeClient` (same client type) keeps ModuleKeys; for a TSS client it writes the client state only -/
+theorem moduleKeys_upgradeClient {s : Store} (h : ModuleKeys s) {chain cb sb : Bytes} (hgt : Height) {m : InitMeta}
+    (hg : createGuard chain cb sb m = true) (hsame : tyOfChain s chain = clientTy cb) :
+    ModuleKeys (upgradeClient s chain cb sb hgt m) := by
+  obtain ⟨hc, ty, hty, hok, hcons⟩ := createGuard_spec hg
+  have hb : (clientTy cb).isSome = true := by rw [hty]; rfl
+  have hS := sorted_of_moduleKeys h
+  rw [hty] at hsame
+  unfold upgradeClient
+  cases m with
+  | tm now =>
+    cases ty <;> simp [InitMeta.tyOk] at hok
+    have hcs : (consTy sb).isSome = true := by rcases hcons with e | e; exact absurd e (by decide); exact e
+    obtain ⟨cv, hcv, hcty⟩ := bind_clientTy_some hsame
+    have h1 := moduleKeys_tmSetMeta h hgt now hc hcv hcty
+    have l1 : (ptimePath hgt).length = 46 := by simp [ptimePath, consPath, be64_length]; decide
+    have n1 : ptimePath hgt ≠ kClientState := by intro e; rw [e] at l1; exact absurd l1 (by decide)
+    have n2 : iterPath hgt ≠ kClientState :=
+      (path_ne_special (p := iterPath hgt) kIterate (isPrefixOf_append _ _) (by decide) (by decide) (by decide) (by decide)).1
+    have t1 : tyOfChain (tmSetMeta s chain hgt now) chain = clientTy cb := by
+      unfold tmSetMeta
+      rw [tyOfChain_set_other (sorted_set hS _ _) (fun e => n2 (clientKey_inj hc hc e).2),
+        tyOfChain_set_other hS (fun e => n1 (clientKey_inj hc hc e).2), hty]; exact hsame
+    exact moduleKeys_setConsensusState (moduleKeys_setClientState_ty h1 hc hb t1) hgt hc hcs
+  | bsc signer pending =>
+    cases ty <;> simp [InitMeta.tyOk] at hok
+    have hcs : (consTy sb).isSome = true := by rcases hcons with e | e; exact absurd e (by decide); exact e
+    obtain ⟨h0, t0⟩ := moduleKeys_bscClearSigners h hc
+    have t0' : tyOfChain (bscClearSigners s chain) chain = some .bsc := by rw [t0 chain hc]; exact hsame
+    have h1 := moduleKeys_bscSetSigner h0 hgt signer hc t0'
+    have t1 : tyOfChain (bscSetSigner (bscClearSigners s chain) chain hgt signer) chain = some .bsc := by
+      unfold bscSetSigner
+      rw [tyOfChain_set_other (sorted_of_moduleKeys h0) (fun e => (signerPath_facts hgt).2.1 (clientKey_inj hc hc e).2)]; exact t0'
+    have h2 := moduleKeys_bscSetPending h1 pending hc t1
+    have t2 : tyOfChain (bscSetPending (bscSetSigner (bscClearSigners s chain) chain hgt signer) chain pending) chain = clientTy cb := by
+      unfold bscSetPending
+      rw [tyOfChain_set_other (sorted_of_moduleKeys h1) (fun e => pending_facts.2.1 (clientKey_inj hc hc e).2), hty]; exact t1
+    exact moduleKeys_setConsensusState (moduleKeys_setClientState_ty h2 hc hb t2) hgt hc hcs
+  | eth hash root idx =>
+    cases ty <;> simp [InitMeta.tyOk] at hok
+    have hcs : (consTy sb).isSome = true := by rcases hcons with e | e; exact absurd e (by decide); exact e
+    have h1 := moduleKeys_ethSetIndex h hash hgt.2 idx hc hsame
+    have t1 : tyOfChain (ethSetIndex s chain hash hgt.2 idx) chain = some .eth := by
+      unfold ethSetIndex
+      rw [tyOfChain_set_other hS (fun e => (ethPath_facts kEthIndex hash hgt.2 (Or.inl rfl)).2.1 (clientKey_inj hc hc e).2)]; exact hsame
+    have h2 := moduleKeys_ethSetRoot h1 root hgt.2 hash hc t1
+    have t2 : tyOfChain (ethSetRoot (ethSetIndex s chain hash hgt.2 idx) chain root hgt.2 hash) chain = clientTy cb := by
+      unfold ethSetRoot
+      rw [tyOfChain_set_other (sorted_of_moduleKeys h1) (fun e => (ethPath_facts kEthRoot root hgt.2 (Or.inr rfl)).2.1 (clientKey_inj hc hc e).2), hty]; exact t1
+    exact moduleKeys_setConsensusState (moduleKeys_setClientState_ty h2 hc hb t2) hgt hc hcs
+  | tss =>
+    exact moduleKeys_setClientState_ty h hc hb (by rw [hty]; exact hsame)
+
+/-- /repo 6c33891: for a TSS client neither create, nor toggle, nor upgrade writes a consensus state — whatever consensus state
+the proposal carries, the only entry written is the client state (so no consensus state at the zero height can appear) -/
+theorem tss_writes_client_state_only (s : Store) (chain cb sb : Bytes) (h : Height) :
+    createClient s chain cb sb h .tss = setClientState s chain cb ∧
+    upgradeClient s chain cb sb h .tss = setClientState s chain cb ∧
+    createClient (clearClient s chain) chain cb sb h .tss = setClientState (clearClient s chain) chain cb :=
+  ⟨rfl, rfl, rfl⟩
+
 /-! ## reachability -/
 
 /-- every modelled keeper operation keeps ModuleKeys -/
@@ -364,6 +489,13 @@ theorem applyOp_moduleKeys {s : Store} (h : ModuleKeys s) (op : KOp) : ModuleKey
       simp only [Bool.and_eq_true] at hg
       obtain ⟨h0, hn⟩ := moduleKeys_clearClient h (createGuard_spec hg.1).1
       exact moduleKeys_createClient h0 hgt hg.1 hn
+    · exact h
+  | upgrade chain cb sb hgt m =>
+    simp only [applyOp]
+    split
+    · next hg =>
+      simp only [Bool.and_eq_true, beq_iff_eq] at hg
+      exact moduleKeys_upgradeClient h hgt hg.1 hg.2
     · exact h
   | clientSameType chain blob =>
     simp only [applyOp]
